@@ -19,31 +19,31 @@ Time is abstract: the clock is the number of `notify` operations so far; `Stamp.
 "during the k-th event".  Strings are real strings (the empty header name matters).
 
 THE THREE BEHAVIOURS THE DESIGN SUSPECTED (F2) ARE ONE DEFINITION EACH, directly below.
-They are written as the code behaves today; flipping one is the whole model change a
-`fix:` commit in /repo needs (see docs/findings/C12.md).
+All three were confirmed as defects by this check and repaired in /repo (acffb03, 0c73de3,
+b2d3d75); the definitions describe the repaired code (see docs/findings/C12.md).
 -/
 namespace BHS.Model.Hooks
 
 /-! ## The three switches -/
 
 /-- (i) `Webhook.MaxTries` after a hook was loaded from the table, given `webhook.max_tries`
-of the configuration.  CODE TODAY: `dto.ToWebhook` does not set the field and
-`WebhooksService.Notify` does not restore it, so it is Go's zero value.
-After a fix that restores the threshold from the configuration: `:= cfgMax`. -/
-def restoredMaxTries (_cfgMax : Nat) : Nat := 0
+of the configuration.  CODE (since /repo acffb03): `WebhooksService.Notify` sets
+`webhook.MaxTries = s.cfg.MaxTries` for every hook it loaded.
+(Before the fix the field kept Go's zero value: `:= 0`.) -/
+def restoredMaxTries (cfgMax : Nat) : Nat := cfgMax
 
 /-- (ii) does the delivery path leave out a header whose NAME is empty (the no-authorisation
-registration stores `token_header = ""`)?  CODE TODAY: no — `Webhook.Notify` puts
-`"" : ""` into the header map, `callRequest` does `req.Header.Add("", "")` and
-`http.Client.Do` refuses the request (`net/http: invalid header field name ""`) before
-anything is sent.  After a fix that skips an empty header name: `:= true`. -/
-def emptyHeaderNameSkipped : Bool := false
+registration stores `token_header = ""`)?  CODE (since /repo 0c73de3): yes — `Webhook.Notify`
+adds `TokenHeader: Token` to the header map only when `TokenHeader != ""`.
+(Before the fix `"" : ""` reached `req.Header.Add` and `http.Client.Do` refused the request
+with `net/http: invalid header field name ""` before anything was sent: `:= false`.) -/
+def emptyHeaderNameSkipped : Bool := true
 
 /-- (iii) does `dto.ToWebhook` copy `last_emit_status` / `last_emit_timestamp`?
-CODE TODAY: no — both stay at Go's zero value (`""`, `0001-01-01`), for the query endpoint
-and for `refreshWebhook`, which then writes the zero values back.  After a fix that maps
-the two columns: `:= true`. -/
-def toWebhookMapsLastEmit : Bool := false
+CODE (since /repo b2d3d75): yes, for the query endpoint and for `refreshWebhook` (which
+therefore writes the loaded values back unchanged).
+(Before the fix both stayed at Go's zero value (`""`, `0001-01-01`): `:= false`.) -/
+def toWebhookMapsLastEmit : Bool := true
 
 /-! ## Data -/
 
